@@ -1,7 +1,7 @@
 (* Case operations of the correspondence protocol (harness/PROTOCOL.md), interpreted on the
    model.  Everything the OCaml runner executes goes through [run_op]. *)
 From Coq Require Import Bool ZArith Lia List FMapPositive.
-From K Require Import Model.Machine Model.Bus Model.Cost.
+From K Require Import Model.Machine Model.Bus Model.Cost Model.Addressing.
 Import ListNotations.
 Open Scope bool_scope. Open Scope Z_scope.
 
@@ -9,7 +9,8 @@ Inductive op :=
 | OPrice (kind n addr : Z)        (* calc_state_with_addr *)
 | OPricePc (kind n : Z)           (* calc_state *)
 | OW8 (addr v : Z) | OR8 (addr : Z)
-| OPort (p v : Z).
+| OPort (p v : Z)
+| OWr (sz addr v : Z) | ORd (sz addr : Z).   (* 16/32-bit big-endian access through the CPU helpers *)
 
 Inductive res := ROk | ROkV (v : Z) | RErr | RPanic.
 
@@ -22,6 +23,8 @@ Definition run_op (o : op) (s : cpu) : res * cpu :=
   | OW8 a v => match bus_write (cbus s) a v with Some b => (ROk, set_bus b s) | None => (RErr, s) end
   | OR8 a => (of_opt (bus_read (cbus s) a), s)
   | OPort p v => (ROk, set_bus (write_port (cbus s) p v) s)
+  | OWr sz a v => match write_abs24 sz a v s with Ok _ s' => (ROk, s') | Err => (RErr, s) | Panic => (RPanic, s) end
+  | ORd sz a => match read_abs24 sz a s with Ok v s' => (ROkV v, s') | Err => (RErr, s) | Panic => (RPanic, s) end
   end.
 
 Definition is_stop (r : res) : bool := match r with RErr | RPanic => true | _ => false end.
